@@ -215,7 +215,7 @@ func genC13Base(t *rapid.T) World {
 var c13Invariants = []string{"reparse-later", "rename-file", "explicit-alias", "rename-profile", "yaml-json", "reorder-keys", "quoting"}
 var c13Edits = []string{"subject-value", "subject-add", "issuer", "signatureAlgorithm", "serial", "subjectUniqueId", "issuerUniqueId",
 	"validity-from", "validity-until", "validity-duration", "validity-add", "ext-edit", "ext-kind-swap", "ext-add", "ext-remove", "ext-reorder",
-	"manipulation", "bc-pathlen-zero", "profile-validity", "profile-ext-edit", "profile-ext-flags"}
+	"manipulation", "bc-pathlen-zero", "admission", "profile-validity", "profile-ext-edit", "profile-ext-flags"}
 
 // applyC13 applies the named transform/edit; ok=false when it does not apply to this base.
 func applyC13(t *rapid.T, base World, kind string) (World, bool) {
@@ -338,6 +338,23 @@ func applyC13(t *rapid.T, base World, kind string) (World, bool) {
 			bc.PathLen = nil
 		}
 		l.Extensions[idx].BC = &bc
+	case "edit:admission":
+		idx := -1
+		for i, x := range l.Extensions {
+			if x.Kind == core.KADM && x.HasContent {
+				idx = i
+			}
+		}
+		if idx < 0 {
+			return w, false
+		}
+		for try := 0; try < 8; try++ {
+			m, what := mutateExt(t, l.Extensions[idx], fmt.Sprintf("adm%d", try))
+			if what == "content" {
+				l.Extensions[idx] = m
+				break
+			}
+		}
 	case "edit:ext-kind-swap":
 		// same raw bytes under another extension kind
 		idx := -1
@@ -488,6 +505,14 @@ func TestC13(t *testing.T) {
 			target(&base).Alias = "the leaf"
 			if after, ok := applyC13(t, base, "invariant:rename-file"); ok {
 				return c13Case{Base: base, Kind: "invariant:rename-file", After: after}
+			}
+		}
+		if rapid.IntRange(0, 9).Draw(t, "with-admission") == 0 {
+			// make edits deep inside an admission extension frequent
+			lf := target(&base)
+			lf.Extensions = append(lf.Extensions, genContentExt(t, core.KADM, "admx"))
+			if after, ok := applyC13(t, base, "edit:admission"); ok {
+				return c13Case{Base: base, Kind: "edit:admission", After: after}
 			}
 		}
 		if rapid.IntRange(0, 9).Draw(t, "with-bc") == 0 {
